@@ -108,7 +108,7 @@ def sx_spec(s):
         a = act if isinstance(act, str) else ("done", act[1])
         st = []
         for ops, out in steps:
-            o = ("kbint" if out == "sysexit" else out) if isinstance(out, str) else (
+            o = out if isinstance(out, str) else (
                 ("yield", None if out[1] is None else sx.F(out[1])) if out[0] == "yield" else ("ret", out[1]))
             st.append(([(op[0],) + tuple(op[1]) for op in ops], o))
         return ("leaf", i, shape, a, st)
@@ -121,13 +121,68 @@ CLOSE_OUTS = ("oncease", "onexit")
 
 def unmodelled(case):
     """cases the Lean model does not cover: ops issued from close actions, BaseException raised by an enter"""
-    if len(case) > 6 and case[6]:
-        return True
     for s, _, _ in all_specs(case):
         if s[0] == "leaf":
-            if s[3] in ("kbint", "sysexit") or any(o in CLOSE_OUTS for _, o in s[4]) or has_op(s, "xextend"):
+            if has_op(s, "xextend"):
+                return True
+            # close-time ops of a doer that ends during its own enter are not modelled (and not generated)
+            if s[3] != "ok" and any(o in CLOSE_OUTS for _, o in s[4]):
                 return True
     return False
+
+
+def model3(case):
+    """cases with scheduler ops issued from cease / exit actions: third-generation model (HioModel/Sched/Model3.lean)"""
+    return any(s[0] == "leaf" and any(o in CLOSE_OUTS for _, o in s[4]) for s, _, _ in all_specs(case))
+
+
+CLOSE_FUEL = 400
+
+
+def sx_spec3(s, cf):
+    if s[0] == "leaf":
+        _, i, shape, act, steps = s
+        a = act if isinstance(act, str) else ("done", act[1])
+        st, co, eo = [], [], []
+        for ops, out in steps:
+            sops = [(op[0],) + tuple(op[1]) for op in ops]
+            if out == "oncease":
+                co += sops
+                continue
+            if out == "onexit":
+                eo += sops
+                continue
+            o = out if isinstance(out, str) else (
+                ("yield", None if out[1] is None else sx.F(out[1])) if out[0] == "yield" else ("ret", out[1]))
+            st.append((sops, o))
+        return ("leaf", i, shape, a, st, i in cf, co, eo)
+    _, i, tock, always, kids, pool = s
+    return ("group", i, sx.F(tock), bool(always), [sx_spec3(k, cf) for k in kids], [sx_spec3(k, cf) for k in pool], i in cf)
+
+
+def model2(case):
+    """cases carrying script data only the second-generation model (HioModel/Sched/Model2.lean) has:
+    exception kinds (SystemExit at a step, KeyboardInterrupt/SystemExit raised by an enter), a clean action that raises"""
+    if extras_of(case, "cleanfail"):
+        return True
+    for s, _, _ in all_specs(case):
+        if s[0] == "leaf" and (s[3] in ("kbint", "sysexit") or any(o == "sysexit" for _, o in s[4])):
+            return True
+    return False
+
+
+def sx_spec2(s, cf):
+    if s[0] == "leaf":
+        _, i, shape, act, steps = s
+        a = act if isinstance(act, str) else ("done", act[1])
+        st = []
+        for ops, out in steps:
+            o = out if isinstance(out, str) else (
+                ("yield", None if out[1] is None else sx.F(out[1])) if out[0] == "yield" else ("ret", out[1]))
+            st.append(([(op[0],) + tuple(op[1]) for op in ops], o))
+        return ("leaf", i, shape, a, st, i in cf)
+    _, i, tock, always, kids, pool = s
+    return ("group", i, sx.F(tock), bool(always), [sx_spec2(k, cf) for k in kids], [sx_spec2(k, cf) for k in pool], i in cf)
 
 
 def extras_of(case, key):
@@ -155,6 +210,16 @@ def request(case, fuel=FUEL):
     if unmodelled(case):
         return ("unmodelled",)
     _, tock, start, limit, pool, specs = case[:6]
+    if model3(case):
+        cf = set(extras_of(case, "cleanfail"))
+        return ("run3", ("tock", sx.F(tock)), ("start", sx.F(start)),
+                ("limit", None if limit is None else sx.F(abs(float(limit)))), ("fuel", fuel), ("cfuel", CLOSE_FUEL),
+                ("pool", [sx_spec3(s, cf) for s in pool]), ("specs", [sx_spec3(s, cf) for s in specs]))
+    if model2(case):
+        cf = set(extras_of(case, "cleanfail"))
+        return ("run2", ("tock", sx.F(tock)), ("start", sx.F(start)),
+                ("limit", None if limit is None else sx.F(abs(float(limit)))), ("fuel", fuel),
+                ("pool", [sx_spec2(s, cf) for s in pool]), ("specs", [sx_spec2(s, cf) for s in specs]))
     return ("run", ("tock", sx.F(tock)), ("start", sx.F(start)),
             ("limit", None if limit is None else sx.F(abs(float(limit)))), ("fuel", fuel),
             ("pool", [sx_spec(s) for s in pool]), ("specs", [sx_spec(s) for s in specs]))
@@ -171,7 +236,7 @@ def obs_view(obs):
         else:
             tr.append((e[0], e[1], sx.F(e[2])))
     return (("trace", tr), ("late", len(obs["late"])), ("flags", [(i, b) for i, b in obs["flags"]]),
-            ("done", obs["done"] if isinstance(obs.get("done_raw", obs["done"]), bool) else "notbool"), ("tyme", sx.F(obs["tyme"])), ("raised", None if obs["raised"] in ("-", "sysexit") else obs["raised"]),
+            ("done", obs["done"] if isinstance(obs.get("done_raw", obs["done"]), bool) else "notbool"), ("tyme", sx.F(obs["tyme"])), ("raised", None if obs["raised"] == "-" else obs["raised"]),
             ("doers", list(obs["doers"])))
 
 
@@ -223,20 +288,28 @@ class Leaf:
         if self.cops[which] and not self.rec.dead:
             self.run_ops(self.cops[which], tyme)
 
+    @staticmethod
+    def fresh(o):
+        """a bound-method doer is handed to extend()/remove() as a FRESHLY created bound method (what `obj.method`
+        evaluates to at the call site): equal to, but not identical with, the object the scheduler holds"""
+        import types
+        return types.MethodType(o.__func__, o.__self__) if isinstance(o, types.MethodType) else o
+
     def run_ops(self, ops, tyme):
         s = self.rec.sched[self.sid]
+        fresh = self.fresh
         for op in ops:
             if op[0] == "extend":
                 pool = self.rec.pools[self.sid]
-                s.extend([pool[k] for k in op[1] if 0 <= k < len(pool)])
+                s.extend([fresh(pool[k]) for k in op[1] if 0 <= k < len(pool)])
             elif op[0] == "xextend":          # extend() on another scheduler (a DoDoer), with that scheduler's pool
                 gid = op[1][0]
                 g, pool = self.rec.sched[gid], self.rec.pools[gid]
-                g.extend([pool[k] for k in op[1][1:] if 0 <= k < len(pool)])
+                g.extend([fresh(pool[k]) for k in op[1][1:] if 0 <= k < len(pool)])
                 self.rec.ev(gid, "doers", tyme(), tuple(self.ids_of(g.doers)))
                 continue
             else:
-                s.remove([self.rec.obj[i] for i in op[1] if i in self.rec.obj])
+                s.remove([fresh(self.rec.obj[i]) for i in op[1] if i in self.rec.obj])
             self.rec.ev(self.sid, "doers", tyme(), tuple(self.ids_of(s.doers)))
 
     def ids_of(self, doers):
@@ -650,7 +723,11 @@ def gen_case(rng, profile="mixed"):
     else:
         limit = None
     if profile == "actfault":
-        ids = [s[1] for s, _, _ in walk(specs, 0)] + [s[1] for s, _, _ in walk(pool, 0)]
+        # (a Doer instance assigns self.done before its clean() runs, a generator function has no done yet: the model
+        #  follows the function shapes, so leaves whose clean raises are function shaped; DoDoers are fine)
+        ids = [s[1] for s, _, _ in list(walk(specs, 0)) + list(walk(pool, 0)) if s[0] == "group" or s[2] in ("doify", "doize", "bound")]
+        if not ids:
+            return ("run", t, rng.choice(STARTS), limit, pool, specs)
         return ("run", t, rng.choice(STARTS), limit, pool, specs, (("cleanfail", sorted(rng.sample(ids, min(len(ids), rng.choice([1, 1, 2, 3]))))),))
     return ("run", t, rng.choice(STARTS), limit, pool, specs)
 
@@ -874,8 +951,9 @@ class SchedCheck(core.Check):
                     "modelled: a Python generator as its remaining script; exceptions as values (err/kbint); the deque+marker as a zipper"]
     assumptions = ["ops are issued by a running doer on its own scheduler only; a pool doer does not remove itself; a removed pool DoDoer whose children issue ops is not extended again (the generators respect this)",
                    "py3.12: generator.close() returns None; Doer/DoDoer return self.done on close, so 3.13 semantics assign the same value",
-                   "SystemExit raised by a doer is modelled as the same kind as KeyboardInterrupt (BaseException that is not Exception): the trace is identical, only do() re-raises it; the adapter reports which and the oracle checks it",
-                   "IMPLEMENTATION-SIDE ONLY (driver answers (unmodelled); oracle on the real run; about a quarter of the C01/C02 cases): scheduler ops issued from a doer's cease/exit action (re-entrant forced shutdown), KeyboardInterrupt/SystemExit raised inside enter, a clean action (leaf or DoDoer) that raises, and extend() called on ANOTHER scheduler (an idle always-DoDoer extended by a sibling) — the Lean theorems do not cover these"]
+                   "three model generations, tied by Lean theorems (model2_is_model_on_old_scripts, model3_is_model2_without_close_ops): Model (plain scripts), Model2 (exception kinds Exception/KeyboardInterrupt/SystemExit at steps and at enters; clean actions that raise), Model3 (scheduler ops issued from cease/exit actions, scheduler state threaded through the close loop, close fuel 400); the driver answers each case with the oldest model that has its script data",
+                   "leaves whose clean action raises are function shaped in the generators (a Doer instance has assigned self.done before clean() runs, a generator function has not; the model follows the functions)",
+                   "IMPLEMENTATION-SIDE ONLY (driver answers (unmodelled); oracle on the real run; ~5% of the C01/C02 cases): extend() called on ANOTHER scheduler (an idle always-DoDoer extended by a sibling), exceptions raised by ops inside a close action, close-time ops of a doer that ends during its own enter — no Lean theorem covers these"]
 
     def corpus(self):
         return list(CORPUS)
@@ -912,6 +990,7 @@ class SchedCheck(core.Check):
         _, tock, start, limit, pool, specs = case[:6]
         f = ["raised:" + d["raised"], "done:%s" % d["done"], "limit:" + ("none" if limit is None else "zero" if limit == 0 else "neg" if limit < 0 else "pos"),
              "events~%d" % (len(d["trace"]) // 25 * 25), "start:" + ("0" if start == 0 else "non0")]
+        f.append("model:" + ("unmodelled" if unmodelled(case) else "3" if model3(case) else "2" if model2(case) else "1"))
         kinds = {e[1] for e in d["trace"]}
         for k in ("cease", "abort", "rmBeg", "doers", "exitEnd"):
             if k in kinds:
@@ -1218,7 +1297,7 @@ def gen_runs(rng):
 CORPUS_R2 = [
     ("run", 1.0, 0.0, 9.0, [], [_lf(1, [_y()] * 6), ("group", 9, 0.0, False, [_lf(2, [_y()]), _lf(3, [_y(), _y()], "plain")], []), _lf(4, [_y()] * 6)], (("cleanfail", [9]),)),
     ("run", 1.0, 0.0, 9.0, [], [("group", 8, 0.0, False, [("group", 9, 0.0, False, [_lf(2, [_y()])], []), _lf(3, [_y()] * 5)], []), _lf(4, [_y()] * 6, "genrecur")], (("cleanfail", [9, 2]),)),
-    ("run", 1.0, 0.0, 9.0, [], [_lf(1, [_y()] * 6, "bound"), _lf(2, [_y(), _y()], "plain"), _lf(3, [_y()] * 6)], (("cleanfail", [2]),)),
+    ("run", 1.0, 0.0, 9.0, [], [_lf(1, [_y()] * 6, "bound"), _lf(2, [_y(), _y()], "doize"), _lf(3, [_y()] * 6)], (("cleanfail", [2]),)),
     ("run", 1.0, 0.0, 9.0, [], [("group", 9, 0.0, True, [_lf(1, [_y()])], [_lf(7, [_y()] * 5)]), _lf(2, [_y(), _y(), _y(), ([("xextend", [9, 0])], "raise")])]),
     ("run", 1.0, 0.0, 4.0, [], [_lf(1, [_y()] * 9), ("group", 9, 0.0, True, [], [_lf(7, [_y(2.0)] * 5, "plain")]), _lf(2, [_y(), _y(), _y(), ([("xextend", [9, 0])], ("yield", 0.0)), _y(), _y()], "genrecur")]),
 ]
